@@ -8,6 +8,7 @@
 //	  fn <E>             (E = F.. | M..) constructs package, receiver type and *types.Func; prints
 //	                     ssa.FuncName(org=false), ssa.FuncName(org=true), cl.typesFuncName full / in-package name
 //	  gl <E>             (E = G..) ssa.FullName(pkg, name)
+//	  sn pkg kind        abi.Builder.TypeName of the unnamed struct{ int } / struct{ error } / struct{ al } (al = alias) of package pkg
 //	  wn cur name pkg recv k Ty*k s idx*s ptr
 //	                     ssa.FuncName(cur, name, receiver, false) for a receiver type declared in package pkg (possibly
 //	                     another package than cur, possibly inside a function scope): the naming of go/ssa's synthetic functions
@@ -243,6 +244,24 @@ func handle(line string) (out string) {
 		}
 		rv := types.NewVar(token.NoPos, w.pkg(path), "r", rt)
 		return "ok " + hx(llssa.FuncName(cur, name, rv, false))
+	case "sn":
+		// descriptor name of the UNNAMED struct type `struct{ <embedded unexported field> }` written in package pkg
+		pkg := w.pkg(t.str())
+		var ft types.Type
+		var fname string
+		switch kind := t.str(); kind {
+		case "int":
+			ft, fname = types.Typ[types.Int], "int"
+		case "error":
+			ft, fname = types.Universe.Lookup("error").Type(), "error"
+		case "alias":
+			ft, fname = types.NewAlias(types.NewTypeName(token.NoPos, pkg, "al", nil), types.Typ[types.Int32]), "al"
+		default:
+			return "bad-op"
+		}
+		st := types.NewStruct([]*types.Var{types.NewField(token.NoPos, pkg, fname, ft, true)}, nil)
+		name, _ := abi.New(8, types.SizesFor("gc", "amd64")).TypeName(st)
+		return "ok " + hx(name)
 	case "gl":
 		if t.next() != "G" {
 			return "bad-op"
